@@ -16,11 +16,13 @@ RULE = ("minimize, minimize-around, minimize-balanced x option grid x every redu
 
 STRATS = ["minimize", "minimize-around", "minimize-balanced"]
 CFGS = [dict(), dict(rep="always"), dict(rep="never"), dict(min=2, max=2, rep="never"), dict(min=2, max=8), dict(repeat_first=True, rep="always")]
+# ordinary non-ASCII text (accents, typographic quotes, a euro sign) before, on and after the marker lines
+MULTIBYTE_MARKED = b"caf\xc3\xa9 \xe2\x80\x9cq\xe2\x80\x9d\n// DDBEGIN \xc3\xa9\na;\nb\xc3\xa9;\nc\n// DDEND \xe2\x82\xac\n\xc3\xa9t\xc3\xa9\n"
 FILES = {
-    "line": [b"a\n{\nb\n}\n(\nc\n)\nd\n", b"h\nDDBEGIN\n{\na\n}\nb\nDDEND\nt\n", b"a\r\n{\rb\r\n}\n\x0bc\r"],
+    "line": [b"a\n{\nb\n}\n(\nc\n)\nd\n", b"h\nDDBEGIN\n{\na\n}\nb\nDDEND\nt\n", b"a\r\n{\rb\r\n}\n\x0bc\r", MULTIBYTE_MARKED],
     "char": [b"a{b}(c)d", b"h\nDDBEGIN\n{ab}c\nDDEND\nt", b"a\r\nb\rc", b"h\r\n// DDBEGIN\r\n(ab)c\r\n// DDEND\r\nt\r\n",
-             b"// DDBEGIN\rab\r// DDEND\r"],
-    "symbol": [b"f(a){b;c};g[1]=2;\n", b"h\n// DDBEGIN\nf(a);g\nb;c\n// DDEND\nt\n", b"// DDBEGIN\r\na;b\rc;d\r\n// DDEND"],
+             b"// DDBEGIN\rab\r// DDEND\r", MULTIBYTE_MARKED],
+    "symbol": [b"f(a){b;c};g[1]=2;\n", b"h\n// DDBEGIN\nf(a);g\nb;c\n// DDEND\nt\n", b"// DDBEGIN\r\na;b\rc;d\r\n// DDEND", MULTIBYTE_MARKED],
     "jsstr": [b"x = 'a{b}c' + \"(d)\\x41\";\ny = 'zz';\n",
               # two never-closed quote characters (an apostrophe in a comment, a quote inside a regex literal) around closed strings
               b"// it's here\nx = 'ab';\nif (/\"/.test(x)) y = \"cd\";\n", b"a = \"p\" + 'q'; // don't\nb = /[\"]/;\nc = 'rs';\n"],
@@ -104,6 +106,13 @@ def loaders_stream(ctx, count, do_model=True):
                 if strat.content(f) != data:
                     ctx.fail("original-altered", f"{kind}: the loaded testcase writes {strat.content(f)!r} for the file {data!r}, so every "
                              "candidate differs from the original in bytes that are not deleted atoms", dict(splitter=kind, data=common.enc_bytes(data)))
+                if b"DDBEGIN" in data and kind in ("line", "char", "symbol"):
+                    from . import c05
+                    head, region, tail = c05.frame(data)
+                    want_after = (region[-1:] + tail) if (kind == "char" and region) else tail
+                    if f[0] != head or f[3] != want_after:
+                        ctx.fail("original-altered", f"{kind}: the reducible atoms of {data!r} are not the text between the marker lines: protected "
+                                 f"prefix {f[0]!r}, suffix {f[3]!r}", dict(splitter=kind, data=common.enc_bytes(data)))
                 for cfg in CFGS:
                     for _ in range(count):
                         p = rng.choice([0.1, 0.5, 0.9])
@@ -317,6 +326,41 @@ def after_other_strategies(ctx):
                 ctx.nontriv("after-others", name, repr(cfg), accept)
 
 
+def touching_test(ctx):
+    """whole runs with a test whose tool rewrites the file it is given: what Lithium presents next is still exactly the
+    candidate it built (the original minus atoms), written in full"""
+    from .. import scripts
+    from . import drv
+    rng = ctx.rng
+    for name, opts in drv.STRATS:
+        if name not in STRATS:
+            continue
+        for kind, datas in drv.INPUTS.items():
+            for data in datas[:3]:
+                seq = [rng.random() < 0.5 for _ in range(400)]
+                tseq = [rng.random() < 0.6 for _ in range(400)]
+                shown = []
+
+                def dec(k, disk, seq=seq, shown=shown):
+                    shown.append(disk)
+                    return "a" if k == 0 or seq[k % len(seq)] else "r"
+
+                o, f0, _run = scripts.play_real(name, opts, kind, data, dec, touch=lambda k, tseq=tseq: tseq[k % 400], touch_head=True)
+                case = dict(strategy=name, opts={k: str(v) for k, v in opts.items()}, splitter=kind, data=common.enc_bytes(data), touching_test=True)
+                ctx.evaluations += 1
+                ctx.bump("touching-test")
+                for k, ((cand, wrote), disk) in enumerate(zip(o.tested, shown)):
+                    if k and wrote and disk != strat.content(cand):
+                        ctx.fail("not-a-deletion", f"{name}/{kind}, the tool under test rewrites its input in place: test {k} was shown {disk!r}, the "
+                                 f"candidate is {strat.content(cand)!r}", case)
+                        break
+                    if k and not is_deletion(f0, cand) and not opts.get("use_experimental_move"):
+                        ctx.fail("not-a-deletion", f"{name}/{kind}: candidate {cand[1]!r} is not the original minus atoms", case)
+                        break
+                if len(shown) > 2:
+                    ctx.nontriv("touching", name, repr(sorted(opts.items())), kind, data)
+
+
 def search(ctx):
     after_other_strategies(ctx)
     torn_writes(ctx)
@@ -339,6 +383,7 @@ def run(ctx) -> int:
     interleaved_iterators(ctx)
     special_cut_sets(ctx)
     after_other_strategies(ctx)
+    touching_test(ctx)
     return common.decide(ctx, proof, RULE, search=search)
 
 
